@@ -65,6 +65,15 @@ MUTANTS = [  # (contract module, qualname, file, regex, replacement, expect)  ex
  ("contracts.c15", "DAG.add_node", "pgmpy/base/DAG.py", r"        if latent:\n            self.latents.add\(node\)\n\n        super\(DAG, self\).add_node", "        super(DAG, self).add_node", "break"),
  ("contracts.c15", "DAG.add_nodes_from", "pgmpy/base/DAG.py", r"                self.add_node\(node=nodes\[index\], latent=latent\[index\]\)", "                self.add_node(node=nodes[0], latent=latent[index])", "break"),
  ("contracts.c15", "UndirectedGraph.add_edges_from", "pgmpy/base/UndirectedGraph.py", r"            for edge in ebunch:\n                self.add_edge\(edge\[0\], edge\[1\]\)", "            for edge in ebunch:\n                self.add_edge(edge[0], edge[0])", "break"),
+ ("contracts.c13", "CausalInference.get_all_backdoor_adjustment_sets", "pgmpy/inference/CausalInference.py", r"if self.is_valid_backdoor_adjustment_set\(X, Y, s\):", "if not self.is_valid_backdoor_adjustment_set(X, Y, s):", "break"),
+ ("contracts.c13", "CausalInference.get_all_backdoor_adjustment_sets", "pgmpy/inference/CausalInference.py", r"            - set\(nx.descendants\(self.model, X\)\)\n", "\n", "break"),
+ ("contracts.c13", "CausalInference.get_all_backdoor_adjustment_sets", "pgmpy/inference/CausalInference.py", r"super_of_complete.append\(vs.intersection\(set\(s\)\) == vs\)", "super_of_complete.append(vs.intersection(set(s)) == set(s))", "break"),
+ ("contracts.c13", "CausalInference.get_all_backdoor_adjustment_sets", "pgmpy/inference/CausalInference.py", r"            if any\(super_of_complete\):\n                continue\n", "", "hold"),
+ ("contracts.c13", "CausalInference.is_valid_frontdoor_adjustment_set", "pgmpy/inference/CausalInference.py", r"if not all\(valid_backdoor_sets\):", "if not any(valid_backdoor_sets):", "break"),
+ ("contracts.c13", "CausalInference.is_valid_frontdoor_adjustment_set", "pgmpy/inference/CausalInference.py", r"path for path in directed_paths if not any\(zz in path for zz in Z\)", "path for path in directed_paths if not all(zz in path for zz in Z)", "break"),
+ ("contracts.c13", "CausalInference.is_valid_frontdoor_adjustment_set", "pgmpy/inference/CausalInference.py", r"valid_backdoor_sets.append\(self.is_valid_backdoor_adjustment_set\(zz, Y, X\)\)", "valid_backdoor_sets.append(self.is_valid_backdoor_adjustment_set(zz, Y))", "break"),
+ ("contracts.c13", "CausalInference.is_valid_frontdoor_adjustment_set", "pgmpy/inference/CausalInference.py", r"        if directed_paths == \[\]:\n            return False\n", "", "break"),
+ ("contracts.c13", "CausalInference.get_all_frontdoor_adjustment_sets", "pgmpy/inference/CausalInference.py", r"possible_adjustment_variables = set\(self.observed_variables\) - \{X\} - \{Y\}\n\n        valid_adjustment_sets = frozenset", "possible_adjustment_variables = set(self.observed_variables) - {X}\n\n        valid_adjustment_sets = frozenset", "break"),
 ]
 
 
